@@ -6,12 +6,16 @@ VARIABLES tid, l
 ASSUME \A t \in 1..Len(Traces) : TLCSet(t, 0)
 Ev == Traces[tid][l]
 TInit == tid \in 1..Len(Traces) /\ l = 1 /\ Init
+\* a step on a valid covariance (strict measure) is never refused and yields a valid covariance (measure relative to the
+\* magnitudes involved); a step whose input is already outside the strict measure carries no claim
 TStep == /\ l <= Len(Traces[tid])
-         /\ Ev.valid_in = valid
+         /\ Ev.valid_in
          /\ Ev.outcome = "ok" /\ Ev.valid_out = TRUE
          /\ Step(Ev.kind)
          /\ l' = l + 1 /\ UNCHANGED tid
-TNext == TStep
+TNoClaim == /\ l <= Len(Traces[tid]) /\ ~Ev.valid_in /\ Ev.outcome # "exception"
+            /\ l' = l + 1 /\ UNCHANGED <<tid, valid, steps>>
+TNext == TStep \/ TNoClaim
 Reach == TLCSet(tid, IF TLCGet(tid) < l THEN l ELSE TLCGet(tid))
 Post == \A t \in 1..Len(Traces) :
           IF TLCGet(t) = Len(Traces[t]) + 1 THEN PrintT(<<"ACCEPT", t>>)
